@@ -22,8 +22,14 @@
     (commands acting at the same virtual instant with the same drain timeout) no owner is
     certain and the view does not make any of them wait ([c03_possible_owner_not_waited_refuted]).
     A Drain call that finds its target already draining ([orig = TDraining], finding D11)
-    opens no call at all.  None of the statements needs [no_parks]: the structural rules
-    (phases, pending, owners) are enforced whether or not goroutines were parked. *)
+    opens no call at all.  The END of an open call is the first state-set by its goroutine
+    after its "cancel the rest"; the view accepts it only if it sets a state other than
+    "draining" (the deferred restore of [Drain] writes back the state the call found, which
+    was not "draining" or the call would have returned at once; a mark is never the end:
+    Example [ex_end_event_mark_rejected]).  It does not constrain the state that is
+    overwritten: a probe may have flipped it meanwhile (finding D12).  None of the
+    statements needs [no_parks]: the structural rules (phases, pending, owners, the
+    restore is not a mark) are enforced whether or not goroutines were parked. *)
 From Coq Require Import ZifyN ZifyNat ZifyBool.
 From KP Require Import model.Base model.Trace model.M5time.
 From KP Require model.M5full proofs.M5fullFacts proofs.M5fullPath proofs.M5fullDrainFwd.
@@ -42,13 +48,14 @@ Print Assumptions c03_return_no_open_drain.
     [goid (e_by eB)], on a target not already draining) with the returning command [c] as its
     single, certain owner has ended in [pre]: after [eB] comes its "cancel the rest" ([eC])
     and then — the first state-set by that goroutine since [eB] — the state-set [eE] on [t]
-    with which the call returns.  So the command did wait for it. *)
+    with which the call returns, a restore: the state [n] it sets is not "draining".  So the
+    command did wait for it. *)
 Theorem c03_owned_drain_ended : forall pre eR post s c r p1 eB p2 sB t orig timeout,
   run step init (pre ++ eR :: post) = Some s -> e_k eR = KReturn c r ->
   pre = p1 ++ eB :: p2 -> run step init p1 = Some sB ->
   e_k eB = KDrainBegin t orig timeout -> orig <> TDraining ->
   candidates sB t (e_t eB) timeout = [c] -> certain sB t c = true ->
-  exists q1 eE q2 o n, p2 = q1 ++ eE :: q2 /\ goid (e_by eE) = goid (e_by eB) /\ e_k eE = KStateSet t o n /\
+  exists q1 eE q2 o n, p2 = q1 ++ eE :: q2 /\ goid (e_by eE) = goid (e_by eB) /\ e_k eE = KStateSet t o n /\ n <> TDraining /\
     (forall e', In e' q1 -> goid (e_by e') = goid (e_by eB) -> forall t' o' n', e_k e' <> KStateSet t' o' n') /\
     (exists eC, In eC q1 /\ goid (e_by eC) = goid (e_by eB) /\ e_k eC = KDrainCancelRest t).
 Proof. exact owned_drain_ended. Qed.
@@ -72,7 +79,7 @@ Theorem c03_deploy_return_drains_done : forall pre eR post s c eP dt drt fa eS s
         run step init (p1 ++ eI :: m1) = Some sD /\
         nmem c (candidates sD t (e_t eD) drt) = true /\ certain sD t c = true /\
         (orig <> TDraining -> candidates sD t (e_t eD) drt = [c] ->
-         exists q1 eE q2 o n, m2 = q1 ++ eE :: q2 /\ goid (e_by eE) = goid (e_by eD) /\ e_k eE = KStateSet t o n /\
+         exists q1 eE q2 o n, m2 = q1 ++ eE :: q2 /\ goid (e_by eE) = goid (e_by eD) /\ e_k eE = KStateSet t o n /\ n <> TDraining /\
            (forall e', In e' q1 -> goid (e_by e') = goid (e_by eD) -> forall t' o' n', e_k e' <> KStateSet t' o' n') /\
            (exists eC, In eC q1 /\ goid (e_by eC) = goid (e_by eD) /\ e_k eC = KDrainCancelRest t)).
 Proof. exact deploy_return_drains_done. Qed.
@@ -88,7 +95,7 @@ Theorem c03_pause_stop_return_drains_done : forall pre eR post s c r eI k name p
   In eI p1 -> e_k eI = KIssue c k name -> is_pause_stop k = true ->
   e_k eB = KDrainBegin t orig timeout -> orig <> TDraining ->
   candidates sB t (e_t eB) timeout = [c] ->
-  exists q1 eE q2 o n, p2 = q1 ++ eE :: q2 /\ goid (e_by eE) = goid (e_by eB) /\ e_k eE = KStateSet t o n /\
+  exists q1 eE q2 o n, p2 = q1 ++ eE :: q2 /\ goid (e_by eE) = goid (e_by eB) /\ e_k eE = KStateSet t o n /\ n <> TDraining /\
     (forall e', In e' q1 -> goid (e_by e') = goid (e_by eB) -> forall t' o' n', e_k e' <> KStateSet t' o' n') /\
     (exists eC, In eC q1 /\ goid (e_by eC) = goid (e_by eB) /\ e_k eC = KDrainCancelRest t).
 Proof. exact pause_stop_drain_ended. Qed.
@@ -104,10 +111,10 @@ Print Assumptions c03_pause_stop_return_drains_done.
     were in flight on the drained targets when draining began have completed or been cut
     off" — and this is still so in the state [f1] in which the command returns (last
     conjunct).  (The part about [fs] is the conclusion of [c03_settled_when_drain_ends] of
-    props/C03.v at [eE], obtained here without assuming that [eE] restores a non-draining
-    state: the timing view takes the first state-set by the goroutine after its "cancel the
-    rest" for the end of the call and does not look at the states — Example
-    [ex_end_event_may_be_a_mark].) *)
+    props/C03.v at [eE].  [eE] is the first state-set by the goroutine after its "cancel the
+    rest" and sets a state [n] other than "draining": exactly the event with which the
+    request-level view closes the call's record — a mark by that goroutine in its place is
+    rejected by the timing view, Example [ex_end_event_mark_rejected].) *)
 Theorem c03_return_snapshots_settled : forall pre eR post st sf c r p1 eB p2 sB t orig timeout,
   run step init (pre ++ eR :: post) = Some st ->
   run M5full.step M5full.init (pre ++ eR :: post) = Some sf ->
@@ -115,7 +122,7 @@ Theorem c03_return_snapshots_settled : forall pre eR post st sf c r p1 eB p2 sB 
   e_k eB = KDrainBegin t orig timeout -> orig <> TDraining ->
   candidates sB t (e_t eB) timeout = [c] -> certain sB t c = true ->
   exists q1 eE q2 o n fs x d sn,
-    p2 = q1 ++ eE :: q2 /\ goid (e_by eE) = goid (e_by eB) /\ e_k eE = KStateSet t o n /\
+    p2 = q1 ++ eE :: q2 /\ goid (e_by eE) = goid (e_by eB) /\ e_k eE = KStateSet t o n /\ n <> TDraining /\
     (forall e', In e' q1 -> goid (e_by e') = goid (e_by eB) -> forall t' o' n', e_k e' <> KStateSet t' o' n') /\
     run M5full.step M5full.init (p1 ++ eB :: q1) = Some fs /\
     nget (M5full.targets fs) t = Some x /\ nget (M5full.t_drains x) (goid (e_by eB)) = Some d /\
@@ -291,19 +298,30 @@ Example ex_early_pause_return_rejected :
   M5full.accepted (jp_snap ++ [mkEv S1 (ACmd 3) (KReturn 3 CROk)]) = true.
 Proof. vm_compute. repeat split; reflexivity. Qed.
 
-(** the timing view does not check that the state-set that ends a Drain call is a restore: after
-    "cancel the rest" a probe flips ta back to healthy (D12) and goroutine 15 marks it draining
-    again; both views accept, the timing view takes the mark for the end of the call, and in the
-    request-level view the call's record is still open when command 2 returns *)
-Definition jx_remark : trace := jx_p1 ++ jx_begin :: firstn 6 jx_drain ++ [
-  mkEv S2 AEnv (KProbeApply 0 true TDraining THealthy);
-  mkEv S2 (AGo 15) (KStateSet 0 THealthy TDraining)] ++ jx_finish.
-Example ex_end_event_may_be_a_mark :
-  accepted (jx_remark ++ [jx_return]) = true /\ M5full.accepted (jx_remark ++ [jx_return]) = true /\
+(** the timing view checks that the state-set that ends a Drain call is a restore, not a mark.
+    [jx_flip]: after "cancel the rest" a probe flips ta back to healthy (D12).  If goroutine 15 now
+    marks ta draining again ([jx_remark]; not a behaviour of the real [Drain], whose only state-set
+    after the mark is the deferred restore of a state that was not "draining") the timing view
+    rejects the trace AT THE MARK — it used to take the mark for the end of the call and let
+    command 2 return; the request-level view alone still accepts [jx_remark] with the return, the
+    call's record open at the return, so it is the timing view that excludes this trace from the
+    joint theorem.  The restore over the flipped state (old state healthy, not draining: D12) is
+    accepted by both views, also after a park. *)
+Definition jx_flip : trace := jx_p1 ++ jx_begin :: firstn 6 jx_drain ++ [
+  mkEv S2 AEnv (KProbeApply 0 true TDraining THealthy)].
+Definition jx_mark : event := mkEv S2 (AGo 15) (KStateSet 0 THealthy TDraining).
+Definition jx_remark : trace := jx_flip ++ [jx_mark] ++ jx_finish.
+Definition jx_restored : trace := jx_flip ++ [mkEv S2 (AGo 15) (KStateSet 0 THealthy THealthy)] ++ jx_finish.
+Example ex_end_event_mark_rejected :
+  accepted jx_flip = true /\ accepted (jx_flip ++ [jx_mark]) = false /\
+  accepted (jx_remark ++ [jx_return]) = false /\ M5full.accepted (jx_remark ++ [jx_return]) = true /\
+  accepted (mkEv 0 AEnv KParked :: jx_flip) = true /\ accepted (mkEv 0 AEnv KParked :: jx_flip ++ [jx_mark]) = false /\
+  accepted (jx_restored ++ [jx_return]) = true /\ M5full.accepted (jx_restored ++ [jx_return]) = true /\
+  accepted (mkEv 0 AEnv KParked :: jx_restored ++ [jx_return]) = true /\
   exists f1 x1 d, run M5full.step M5full.init jx_remark = Some f1 /\ nget (M5full.targets f1) 0 = Some x1 /\
     nget (M5full.t_drains x1) 15 = Some d /\ M5full.d_cancelled d = true /\ M5full.t_inflight x1 = [].
 Proof.
-  split; [vm_compute; reflexivity|]. split; [vm_compute; reflexivity|].
+  do 9 (split; [vm_compute; reflexivity|]).
   eexists. eexists. eexists. split; [vm_compute; reflexivity|]. repeat split; reflexivity.
 Qed.
 
